@@ -110,6 +110,7 @@ class Kernel {
 
   // ---- clock (microseconds since an arbitrary epoch)
   int64_t now_us = 0;
+  uint64_t change_gen = 0;       // bumped whenever stream state changes (bytes written, an end closed or shut down): lets parked pollers know a re-scan can differ
   void advance_ms(int64_t ms) { now_us += ms * 1000; if (now_us < 0) now_us = 0; }
 
   // ---- identity of the SUT process, users and groups
